@@ -600,3 +600,26 @@ def fr5b(ctx):
                           'a frame can be returned without the cursor having moved past its %s: the next read would start inside this frame' % ('header' if not o1 else 'payload'))
     if n == 0:
         ctx.missing('frame-exit', 'no Ok exit in the frame reading body')
+
+
+@rule('REC6', ['C02', 'C09', 'C03', 'C12'], floor=1, template='no-reach')
+def rec6(ctx):
+    """The record reader never turns a VALID frame into an error: error exits are reachable only from the
+    error arms of the frame reader's result (a valid First/Full frame after an unfinished entry starts a
+    new entry, it is not dropped)."""
+    n = 0
+    for b in rec_bodies(ctx):
+        for cs in b.calls:
+            dl = cs.dest_local()
+            if cs.node is None or dl is None or 'frame::reader::ReadFrameError' not in b.local_ty(dl):
+                continue
+            known = alias_paths(b, dl)
+            for (bi, pl, adt, edges) in b.discr_switches():
+                if place_path(known, pl) == [()] and 'Ok' in edges:
+                    n += 1
+                    r = b.reach([edges['Ok'][1]], avoid=[cs.point])
+                    bad = [e for e in b.exits() if e['kind'] in ('err', 'err_prop') and e['point'] in r]
+                    ctx.check(not bad, '%s:valid-frame-never-errors' % b.path, where(b, cs.point), 'no error exit is reachable from the Ok(frame) edge',
+                              'a frame that passed its CRC can make the record reader return an error (at %s): the valid entry it belongs to is dropped' % (b.loc(bad[0]['point']) if bad else '-'))
+    if n == 0:
+        ctx.missing('frame-result', 'no switch on the frame reader result in the record reader')
